@@ -61,6 +61,7 @@ SIGS = {
             'mmx': [_sl('m', mode='math'), _sl('m')],
             'mch': [_sl('m', mode='text')],
             'lvi': [_sl('o', '[', ']'), _sl('vl')],
+            'lst': [dict(_sl('m'), legacy=True), _sl('s', '*'), _sl('o', '[', ']'), dict(_sl('m'), legacy=True)],      # declared through the pylatexenc-2 MacroStandardArgsParser
         },
         'envs': {
             'ea': dict(sig=[_sl('m')], body=None), 'eo': dict(sig=[_sl('o', '[', ']')], body=None),
@@ -93,7 +94,7 @@ SIGS = {
         },
         'venvs': {'verbatim': 'arg'},
         'specials': ['~', '---', '``', '&'],
-        'syms': ['alpha', '&'],
+        'syms': ['alpha', '&', '}'],     # \} : a control symbol whose name is a closing delimiter
         'unknown': [],
         'cs_args': ['alpha'],
         'verb': True,
@@ -545,7 +546,9 @@ def _render_args(r, slots, values, mode, in_opt=False):
                 args.append(('c', v[1], amode))
             elif v[0] == 'cs':
                 r.emit('\\' + v[1])
-                args.append(('M', v[1], (), amode))
+                # a control sequence taken as a single-token argument: the pylatexenc-2 argument parser returns the bare
+                # macro node (no argument record), the pylatexenc-3 parsers one with an empty argument record
+                args.append(('M', v[1], None if slot.get('legacy') else (), amode))
         else:
             raise ValueError(kind)
     return args, trailing
